@@ -35,11 +35,45 @@ def r13_1_year_cache_keys(ctx: Ctx) -> RuleResult:
     gv, gi = M.find_method(c, mangle(c.name, "__get_validator")), M.find_method(c, "_get_cache_index")
     if gv is None or gi is None:
         raise AnalysisError("_YearStartCacheEntry helpers missing")
-    gvt, git = unparse(gv.body[-1]), unparse(gi.body[-1])
-    if not ("year >> cls.__CACHE_INDEX_BITS" in gvt and "& cls.__ENTRY_VALIDATION_MASK" in gvt):
-        probs.append(f"validator is not (year >> INDEX_BITS) & VALIDATION_MASK: {gvt}")
-    if "year & cls.__CACHE_INDEX_MASK" not in git:
-        probs.append(f"cache index is not year & INDEX_MASK: {git}")
+    # (index, validator) must tell apart every pair of years a calculator can ask about: decided by evaluating the two helpers'
+    # return expressions (tiny integer evaluator, class constants folded) for every year of the widest span - whatever their form
+    from ..kit import eval_int_expr
+
+    def ret_expr(g):
+        rets = [n.value for n in own_nodes(g.node) if isinstance(n, ast.Return) and n.value is not None]
+        body = [st for st in g.body if not (isinstance(st, ast.Expr) and isinstance(st.value, ast.Constant))]
+        return rets[0] if len(rets) == 1 and len(body) == 1 else None
+
+    ev_, ei_ = ret_expr(gv), ret_expr(gi)
+    insts = calculator_instances(ctx)
+    lo_all, hi_all = min(ci.min_year for ci in insts) - 1, max(ci.max_year for ci in insts) + 1
+    if ev_ is None or ei_ is None:
+        probs.append("validator / index helper is not a single return expression (not evaluated)")
+    else:
+        fold = lambda x: M.fold(x, c, c.mod)  # noqa: E731
+        seen: dict[tuple[int, int], list[int]] = {}
+        pv, pi = gv.value_params[0].arg, gi.value_params[0].arg
+        for y in range(lo_all, hi_all + 1):
+            v, i = eval_int_expr(ev_, {pv: y}, fold), eval_int_expr(ei_, {pi: y}, fold)
+            if v is None or i is None:
+                probs.append(f"helper expression not evaluable for year {y}: {unparse(ev_)} / {unparse(ei_)}")
+                break
+            if not (0 <= v <= vmask and 0 <= i <= imask):
+                probs.append(f"year {y}: validator {v} / index {i} outside their {vb}- and {ib}-bit fields")
+                break
+            seen.setdefault((i, v), []).append(y)
+        else:
+            for (i, v), ys in seen.items():
+                if len(ys) < 2:
+                    continue
+                for ci in insts:
+                    inside_span = [y for y in ys if ci.min_year - 1 <= y <= ci.max_year + 1]
+                    if len(inside_span) >= 2:
+                        probs.append(f"years {inside_span[0]} and {inside_span[1]} of {ci.label} share cache index {i} and validator {v}: an entry cached for one is trusted for the other")
+                        break
+                if probs:
+                    break
+        rr.states += hi_all - lo_all + 1
     if probs:
         rr.fail(c.qual, "; ".join(probs), c.mod.rel)
     else:
